@@ -436,8 +436,8 @@ MUTANTS += [
      "old": "        header = fbh5.parse_header(filename)\n        frame = \"topocentric\"\n        if header.get(\"pulsarcentric\"):\n            frame = \"pulsarcentric\"\n        if header.get(\"barycentric\"):\n            frame = \"barycentric\"\n",
      "new": "        header = fbh5.parse_header(filename)\n        frame = \"topocentric\"\n        if header.get(\"barycentric\"):\n            frame = \"barycentric\"\n"},
     {"id": "c05-revert-F15", "file": S, "expect": "C05.R4",
-     "old": "    sign = \"-\" if src_dej < 0 else \"+\"\n    de, ami = divmod(abs(src_dej), 10000)\n    ami, ase = divmod(ami, 100)\n\n    radec_str = f\"{int(ho)} {int(mi)} {se} {sign}{int(de)} {int(ami)} {ase}\"",
-     "new": "    sign = -1 if src_dej < 0 else 1\n    de, ami = divmod(abs(src_dej), 10000)\n    ami, ase = divmod(ami, 100)\n\n    radec_str = f\"{int(ho)} {int(mi)} {se} {sign * int(de)} {int(ami)} {ase}\""},
+     "edits": [{"file": S, "old": "    sign = \"-\" if src_dej < 0 else \"+\"\n", "new": "    sign = -1 if src_dej < 0 else 1\n"},
+               {"file": S, "old": "{se:.10f} {sign}{int(de)} {int(ami)} {ase:.10f}", "new": "{se:.10f} {sign * int(de)} {int(ami)} {ase:.10f}"}]},
     {"id": "c05-sign-positive-prefix", "file": S, "expect": "C05.R4",
      "old": "    sign = \"-\" if src_dej < 0 else \"+\"", "new": "    sign = \"+\" if src_dej < 0 else \"-\""},
     {"id": "c05-to-sigproc-frame-swapped", "file": H, "expect": "C05.R2",
